@@ -80,6 +80,8 @@ class Repo:
                         ci["methods"][s2.name] = fi
                     elif isinstance(s2, ast.Assign) and len(s2.targets) == 1 and isinstance(s2.targets[0], ast.Name):
                         ci["attrs"][s2.targets[0].id] = s2.value
+                    elif isinstance(s2, ast.AnnAssign) and isinstance(s2.target, ast.Name) and s2.value is not None:
+                        ci["attrs"][s2.target.id] = s2.value
                 mi.classes[st.name] = ci
             elif isinstance(st, ast.Import):
                 for a in st.names:
